@@ -36,7 +36,13 @@ Bases == <<
   <<Text("a"), IfS(NameE("x"), <<Text("t"), FilterS(<<"up">>, <<Text("q")>>)>>, <<Text("e")>>, TRUE), Text("c")>>,
   (* loops over a hash literal and over a hash of the context: the body's failure ends the loop and the rendering *)
   <<Text("a"), ForS("k", "v", HashE(<< <<NameE("hk"), IntE(1)>> >>), NoE, <<PrintS(NameE("k")), Text("="), PrintS(NameE("v"))>>, <<>>, FALSE), Text("b")>>,
-  <<Text("a"), ForS("", "v", NameE("hh"), NoE, <<Text("["), PrintS(NameE("v")), Text("]")>>, <<Text("E")>>, TRUE), Text("b")>>
+  <<Text("a"), ForS("", "v", NameE("hh"), NoE, <<Text("["), PrintS(NameE("v")), Text("]")>>, <<Text("E")>>, TRUE), Text("b")>>,
+  (* a macro whose result is not printed as it is: assigned, concatenated, filtered, passed on - what the macro had rendered
+     before it failed goes nowhere *)
+  <<MacroS("mm", <<>>, <<Text("M"), PrintS(NameE("x")), Text("N")>>), Text("a"), SetS("r", AttrCall(NameE("_self"), "mm", <<>>)), Text("b"),
+    PrintS(Bin("~", StrE("k"), AttrCall(NameE("_self"), "mm", <<>>))), PrintS(Pipe(AttrCall(NameE("_self"), "mm", <<>>), "up", <<>>)), Text("c"), PrintS(NameE("r"))>>,
+  <<MacroS("mo", <<"p">>, <<Text("<"), PrintS(NameE("p")), Text(">")>>), MacroS("mi", <<>>, <<Text("I"), PrintS(NameE("x"))>>), Text("a"),
+    PrintS(AttrCall(NameE("_self"), "mo", <<AttrCall(NameE("_self"), "mi", <<>>)>>)), Text("b")>>
 >>
 
 ErrKinds == <<"filter", "func", "test", "noniter", "block", "include", "syntax", "argfirst", "argmid", "argfilter", "macro">>
